@@ -31,7 +31,7 @@ ASSUMPTIONS = [
 ]
 REQUIRED = {'groups': 300, 'spellings': 1500, 'spelling.keyword': 300, 'spelling.omitted-defaults': 100,
             'spelling.skipped-slot': 20, 'spelling.call()': 100, 'spelling.method-vs-function': 50,
-            'kind.checked': 100, 'reach.map_args': 1000, 'reach.get_delegate': 1000, 'reach.translate_args': 1000,
+            'kind.checked': 100, 'family.groups': 100, 'reach.map_args': 1000, 'reach.get_delegate': 1000, 'reach.translate_args': 1000,
             'pr.system.call_func': 100, 'pr.*': 150}
 
 NONDET = ('now', 'localtz')
@@ -48,6 +48,7 @@ class Mon:
         self.eng = yq.engine({'yaql.limitIterators': 500, 'yaql.memoryQuota': 5000000})
         self.ctx = yaql.create_context()
         self.overloads = cat.build(self.ctx)
+        self.family_ctx = None
         counts = {}
         for o in self.overloads:
             counts[o.name] = counts.get(o.name, 0) + 1
@@ -87,7 +88,7 @@ class Mon:
             st = self.eng(text)
         except Exception as e:
             return ('parse-error', type(e).__name__, str(e)[:80])
-        ctx = self.ctx.create_child_context()
+        ctx = (self.family_ctx or self.ctx).create_child_context()
         for k, a in vars_.items():
             ctx[k] = cat.materialize(a)
         try:
@@ -272,6 +273,8 @@ def arg_tuples(o, rng, count):
                 else:
                     k = rng.choice((0, 1, 2))
                 extra = [rng.choice(cands) for _ in range(k)]
+        if any(s_ is OMIT or isinstance(s_, tuple) for s_ in states):
+            extra = []          # *args can only follow positional arguments that are all spelled out
         # a deliberately ill-typed tuple now and then (error classes must agree too)
         if c >= 2 and rng.random() < 0.2 and states and o.single_name:
             i = rng.randrange(len(states))
@@ -386,12 +389,52 @@ def doc_alias_checks(mon, rec):
                                   {'kind': 'doc', 'ident': o.ident})
 
 
+def family_groups(mon, rec, rng, count):
+    """user-defined signatures (hidden parameters at any position, defaults, keyword-only, *args) registered alone
+    under the name f: every spelling of a call must bind the same arguments"""
+    from vmon import families as fam
+    from vmon.props import c05
+    vals = {'object': ['a', 'i', 's'], 'A': ['a', 'b', 'c'], 'B': ['b', 'c'], 'C': ['c'], 'D': ['d'], 'int': ['i'], 'str': ['s']}
+    for n in range(count):
+        spec = c05.gen_overload(rng, 't', rng.choice(['function', 'function', 'extension']), False, False)
+        spec.params = [p for p in spec.params if p.kind != 'kwargs']
+        ctx = mon.ctx.create_child_context()
+        fn = spec.build()
+        try:
+            ctx.register_function(fn)
+        except Exception:
+            continue
+        fd = next(iter(ctx._functions['f']))
+        o = cat.Overload(fd, 0)
+        o.single_name = True
+        for prm in o.params + o.kwonly:
+            prm.kwname = camel(prm.pyname)
+        byname = {p.name: p for p in spec.params}
+        for prm in o.params + ([o.varargs] if o.varargs else []):
+            sp = byname[prm.pyname]
+            keys = vals[sp.tname] + (['n'] if sp.nullable else [])
+            cat.NAME_OVERRIDES[('f', prm.name)] = [cat.var(cat.Fresh(fam.VALUES[k][1], k)) for k in keys]
+        mon.family_ctx = ctx
+        try:
+            for states, extra in arg_tuples(o, rng, 4):
+                check_group(mon, o, states, extra, rec)
+                rec.count('family.groups')
+        finally:
+            mon.family_ctx = None
+            for prm in o.params + ([o.varargs] if o.varargs else []):
+                cat.NAME_OVERRIDES.pop(('f', prm.name), None)
+        if n % 50 == 0:
+            rec.sample({'user_defined_signature': spec.desc()})
+
+
 def plan(tier, seed):
     thorough = tier == 'thorough'
     parts = 16
     shards = [{'name': 'groups-%d' % p, 'kind': 'groups', 'part': p, 'parts': parts, 'tuples': 40 if thorough else 8,
                'timeout': 2400} for p in range(parts)]
     shards.append({'name': 'kinds', 'kind': 'kinds'})
+    for p in range(8 if thorough else 2):
+        shards.append({'name': 'families-%d' % p, 'kind': 'families', 'count': 1500 if thorough else 150})
     return shards
 
 
@@ -401,6 +444,9 @@ def run_shard(spec, rec):
         if spec['kind'] == 'kinds':
             kind_checks(mon, rec)
             doc_alias_checks(mon, rec)
+            return
+        if spec['kind'] == 'families':
+            family_groups(mon, rec, rng_for(spec['seed'], 'c12', spec['name']), spec['count'])
             return
         idx = -1
         for o in mon.overloads:
